@@ -752,7 +752,7 @@ Proof.
 Qed.
 
 Lemma len_blank_not_char c : is_len_blank c = true -> is_len_char c = false.
-Proof. unfold is_len_blank, is_len_char, is_digit, c_SP, c_BAR, c_TAB, c_DOT, c_HAT, c_PCT, c_MINUS, c_PLUS. lia. Qed.
+Proof. unfold is_len_blank, is_len_char, is_digit, c_SP, c_BAR, c_TAB, c_CR, c_DOT, c_HAT, c_PCT, c_MINUS, c_PLUS. lia. Qed.
 
 Lemma gnl_len : forall len f rest ln, forallb is_len_char len = true ->
   get_note_length_f (length len + f) (len ++ rest) ln
@@ -831,6 +831,7 @@ Proof.
     destruct r as [|b r']; [reflexivity|]. cbn [len_stop] in N1. cbn [eq_char].
     apply andb_true_iff in N1. destruct N1 as [N1 _]. apply andb_true_iff in N1. destruct N1 as [_ N1].
     apply negb_true_iff in N1. unfold is_len_blank, c_SP, c_BAR, c_TAB in N1.
+    apply orb_false_elim in N1. destruct N1 as [N1 _].
     apply orb_false_elim in N1. destruct N1 as [N1 T]. apply orb_false_elim in N1. destruct N1 as [Sp _].
     rewrite T, Sp. reflexivity. }
   unfold read_int_after_comma.
